@@ -57,7 +57,7 @@ ASSUMPTIONS = [
 ]
 BUDGET = {
     "quick": {"examples": 1280, "shards": 16, "cap_s": 150, "shrink_calls": 150, "shrink_s": 60},
-    "thorough": {"examples": 4800, "shards": 16, "cap_s": 1500, "shrink_calls": 600, "shrink_s": 240},
+    "thorough": {"examples": 14400, "shards": 16, "cap_s": 1500, "shrink_calls": 600, "shrink_s": 240},
 }
 BATCH = {"quick": 64, "thorough": 512}
 
@@ -99,29 +99,24 @@ def shard_env(k, tier):
 
 
 def _config_strategy(tier):
+    # NB: only `sampled_from` over lists of < 256 entries, combined with `tuples`: Hypothesis' distribution over
+    # larger index ranges is biased towards the head of the list, and big-integer seeds made it repeat itself
+    # (78% of the thorough cases collapsed onto 1 channel / 1 pole before).
     if tier == "quick":
         k = int(os.environ.get("VP_KMAT_SHARD", "0"))
         heavy = HEAVY[k % len(HEAVY)]
         return st.one_of(st.sampled_from(LIGHT), st.sampled_from(LIGHT), st.just(heavy))
-    rel = st.fixed_dictionaries({
-        "cls": st.just("R"),
-        "nc": st.integers(1, 3),
-        "np": st.integers(1, 4),
-        "L": st.integers(0, 4),
-        "d": st.sampled_from(["1", "3/2", "sym"]),
-        "phsp": st.sampled_from(kmat.REAL_ABOVE_THRESHOLD),
-        "route": st.just("compose"),
-    })
-    nonrel = st.fixed_dictionaries({
-        "cls": st.just("NR"),
-        "nc": st.integers(1, 3),
-        "np": st.integers(1, 4),
-        "L": st.just(0),
-        "d": st.just("1"),
-        "phsp": st.just("PhaseSpaceFactor"),
-        "route": st.just("compose"),
-    })
-    return st.one_of(rel, rel, rel, nonrel, st.sampled_from(LIGHT))
+    shape = st.sampled_from([(nc, npo) for nc in (1, 2, 3) for npo in (1, 2, 3, 4)])
+    dyn = st.sampled_from([
+        (ell, d, phsp) for ell in range(5) for d in ("1", "3/2", "sym") for phsp in kmat.REAL_ABOVE_THRESHOLD
+    ])
+    cls = st.sampled_from(["R", "R", "R", "NR"])
+
+    def build(t):
+        (kind, (nc, npo), (ell, d, phsp)) = t
+        return _cfg("R", nc, npo, ell, d, phsp) if kind == "R" else _cfg("NR", nc, npo)
+
+    return st.tuples(cls, shape, dyn).map(build)
 
 
 def strategy(tier):
@@ -131,7 +126,8 @@ def strategy(tier):
             "generic", "generic", "near_threshold", "near_pole", "wide", "degenerate",
             "subthreshold_pole", "subthreshold_pole",
         ]),
-        "point_seed": st.integers(0, 2**32 - 1),
+        # six bytes instead of one big integer (Hypothesis draws big integers mostly below 2^16 and repeats them)
+        "point_seed": st.lists(st.integers(0, 255), min_size=6, max_size=6),
         "batch": st.just(BATCH[tier]),
     })
 
